@@ -103,6 +103,9 @@ type XClient struct {
 	SawClose   bool
 	Heartbeats int
 	GoAways    int
+	// OddFrames counts, per frame id, frames that are neither a reply nor a heartbeat request
+	// (a corrupted reply forwarded by MOSN may read as a request or an event to the client)
+	OddFrames map[uint64]int
 }
 
 func NewXClient(s *sim.Sim, h *History, codec XCodec, name string) *XClient {
@@ -142,6 +145,12 @@ func (x *XClient) OnData(c *sim.Conn, b []byte) {
 		if err != nil {
 			x.ParseErr = err
 			return
+		}
+		if (f.Heartbeat && !f.IsReq) || (f.IsReq && !f.Heartbeat) {
+			if x.OddFrames == nil {
+				x.OddFrames = map[uint64]int{}
+			}
+			x.OddFrames[f.ID]++
 		}
 		if f.Heartbeat {
 			x.Heartbeats++
